@@ -97,6 +97,9 @@ type FnCtx struct {
 	lets      map[string]Val
 	quiet     bool
 	nonNil    map[string]bool
+	decOf     map[string]string
+	fnFacts   map[string]bool
+	replayParams []replayParam
 }
 
 type frame struct {
@@ -746,6 +749,9 @@ func loopPos(li *loopInfo) token.Pos {
 	best := token.NoPos
 	for b := range li.blocks {
 		for _, in := range b.Instrs {
+			if _, isPhi := in.(*ssa.Phi); isPhi {
+				continue
+			}
 			if p := in.Pos(); p.IsValid() && (best == token.NoPos || p < best) {
 				best = p
 			}
